@@ -338,12 +338,35 @@ Proof.
   - specialize (IHe true closed). cbn in IHe. destruct pending; lia.
   - apply IHe.
   - destruct pending, closed.
-    + destruct b.
-      * rewrite count_cons. cbn [is_tick]. specialize (IHe false true). cbn in IHe. lia.
-      * rewrite count_cons. cbn [is_tick]. specialize (IHe true true). cbn in IHe. lia.
+    + rewrite count_cons. cbn [is_tick]. specialize (IHe true true). cbn in IHe. lia.
     + rewrite count_cons. cbn [is_tick]. specialize (IHe false false). cbn in IHe. lia.
     + rewrite count_cons. cbn [is_tick]. specialize (IHe false true). cbn in IHe. lia.
     + specialize (IHe false false). cbn in IHe. lia.
+Qed.
+
+(* once quit is closed no select ever yields a tick *)
+Lemma resolve_closed_no_tick evs : forall pending,
+  count is_tick (resolve pending true evs) = 0.
+Proof.
+  induction evs as [|e evs IHe]; intros pending; [reflexivity|].
+  destruct e as [| |b]; cbn [resolve].
+  - apply IHe.
+  - apply IHe.
+  - destruct pending; rewrite count_cons; cbn [is_tick]; apply IHe.
+Qed.
+
+Lemma no_ping_once_closed fail np pending evs :
+  count is_ping (snd (ka_run fail (Running np) (resolve pending true evs))) = 0.
+Proof.
+  rewrite pings_eq_ticks.
+  pose proof (taken_ticks_le fail (resolve pending true evs) np) as H1.
+  rewrite resolve_closed_no_tick in H1. lia.
+Qed.
+
+Lemma loops_of_count h : loops_of h = count is_att_ok h.
+Proof.
+  induction h as [|a h IHh]; [reflexivity|].
+  cbn [loops_of]. rewrite count_cons, IHh. destruct a; reflexivity.
 Qed.
 
 Lemma resolve_no_quit_before_close evs : forall pending,
